@@ -104,6 +104,7 @@ type c04Cfg struct {
 	mode   string
 	policy string
 	gangs  []c04GangDef
+	flipAll bool // CRD configurations: the mode annotation of every gang may flip (thorough); otherwise only the first gang's
 	crd    bool // gangs defined by PodGroup objects (pods carry only the pod-group label); PodGroup events join the alphabet
 }
 
@@ -111,7 +112,23 @@ type c04Cfg struct {
 type c04PG struct {
 	present bool
 	min     int
+	flipped bool // the mode annotation currently says the opposite of the configuration's mode (annotation-only update)
 	obj     *pgv1alpha1.PodGroup
+}
+
+func c04OtherMode(m string) string {
+	if m == extension.GangModeStrict {
+		return extension.GangModeNonStrict
+	}
+	return extension.GangModeStrict
+}
+
+// modeOf: the mode that currently applies to a roll-back / failure of a member of this gang
+func (s *c04Sys) modeOf(gang string) string {
+	if s.cfg.crd && s.pgs[gang].flipped {
+		return c04OtherMode(s.cfg.mode)
+	}
+	return s.cfg.mode
 }
 
 type c04PodState int
@@ -166,13 +183,17 @@ func (s *c04Sys) minOf(g c04GangDef) int {
 // defined: is the gang's definition known to the scheduler (always, when pods carry it; after the PodGroup add otherwise)
 func (s *c04Sys) defined(gang string) bool { return !s.cfg.crd || s.pgs[gang].present }
 
-func (c *c04Cfg) pgObj(g c04GangDef, min int) *pgv1alpha1.PodGroup {
+func (c *c04Cfg) pgObj(g c04GangDef, min int, flipped bool) *pgv1alpha1.PodGroup {
 	groups, _ := json.Marshal(c.groupIDs())
+	mode := c.mode
+	if flipped {
+		mode = c04OtherMode(mode)
+	}
 	return &pgv1alpha1.PodGroup{
 		ObjectMeta: metav1.ObjectMeta{Name: g.Name, Namespace: "ns", UID: types.UID("uid-pg-" + g.Name),
 			CreationTimestamp: metav1.NewTime(time.Unix(1700000000, 0)),
 			Annotations: map[string]string{
-				extension.AnnotationGangMode:        c.mode,
+				extension.AnnotationGangMode:        mode,
 				extension.AnnotationGangMatchPolicy: c.policy,
 				extension.AnnotationGangGroups:      string(groups),
 			}},
@@ -301,7 +322,7 @@ func (s *c04Sys) unreserve(p *c04Pod, check bool, why string) []mc.Violation {
 			}
 		}
 		// (a pod that was deleted while it waited is no member any more: its late Unreserve is outside the clause)
-		if p.st != c04DeletedHolding && s.cfg.mode == extension.GangModeStrict && !(s.cfg.policy == extension.GangMatchPolicyOnceSatisfied && groupSatisfiedBefore) {
+		if p.st != c04DeletedHolding && s.modeOf(p.gang) == extension.GangModeStrict && !(s.cfg.policy == extension.GangMatchPolicyOnceSatisfied && groupSatisfiedBefore) {
 			for n := range waitingBefore {
 				if n != p.name && !rejected[n] {
 					viol = append(viol, s.v("strict-no-reject|"+why, fmt.Sprintf("strict group not yet satisfied: member %s rolled back (%s) but waiting member %s was not rejected", p.name, why, n)))
@@ -484,7 +505,7 @@ func c04BuildOps(cfg *c04Cfg) []c04Op {
 					for _, n := range s.h.rejectLog {
 						rejected[n] = true
 					}
-					if check && s.cfg.mode == extension.GangModeStrict && !(s.cfg.policy == extension.GangMatchPolicyOnceSatisfied && s.everHeld["g"]) {
+					if check && s.modeOf(p.gang) == extension.GangModeStrict && !(s.cfg.policy == extension.GangMatchPolicyOnceSatisfied && s.everHeld["g"]) {
 						for n := range waitingBefore {
 							if !rejected[n] {
 								viol = append(viol, s.v("strict-no-reject|unschedulable", fmt.Sprintf("strict group not yet satisfied: member %s is unschedulable but waiting member %s was not rejected", pn, n)))
@@ -509,7 +530,7 @@ func c04BuildOps(cfg *c04Cfg) []c04Op {
 					enabled: func(s *c04Sys) bool { return !s.pgs[g.Name].present },
 					apply: func(s *c04Sys, check bool) []mc.Violation {
 						pg := s.pgs[g.Name]
-						pg.obj = s.cfg.pgObj(g, pg.min)
+						pg.obj = s.cfg.pgObj(g, pg.min, pg.flipped)
 						s.mgr.cache.onPodGroupAdd(pg.obj)
 						pg.present = true
 						return nil
@@ -524,7 +545,17 @@ func c04BuildOps(cfg *c04Cfg) []c04Op {
 							pg.min = g.Min
 						}
 						old := pg.obj
-						pg.obj = s.cfg.pgObj(g, pg.min)
+						pg.obj = s.cfg.pgObj(g, pg.min, pg.flipped)
+						s.mgr.cache.onPodGroupUpdate(old, pg.obj)
+						return nil
+					}},
+				c04Op{name: "informer.pgFlipMode(" + g.Name + ")", // annotation-only update: the mode annotation switches strict <-> non-strict, the spec is untouched
+					enabled: func(s *c04Sys) bool { return s.pgs[g.Name].present && (s.cfg.flipAll || g.Name == s.cfg.gangs[0].Name) },
+					apply: func(s *c04Sys, check bool) []mc.Violation {
+						pg := s.pgs[g.Name]
+						pg.flipped = !pg.flipped
+						old := pg.obj
+						pg.obj = s.cfg.pgObj(g, pg.min, pg.flipped)
 						s.mgr.cache.onPodGroupUpdate(old, pg.obj)
 						return nil
 					}})
@@ -536,7 +567,7 @@ func c04BuildOps(cfg *c04Cfg) []c04Op {
 func (s *c04Sys) pgString() string {
 	var sb strings.Builder
 	for _, g := range s.cfg.gangs {
-		fmt.Fprintf(&sb, "%s:%v/%d ", g.Name, s.pgs[g.Name].present, s.pgs[g.Name].min)
+		fmt.Fprintf(&sb, "%s:%v/%d/%v ", g.Name, s.pgs[g.Name].present, s.pgs[g.Name].min, s.pgs[g.Name].flipped)
 	}
 	return sb.String()
 }
@@ -681,7 +712,7 @@ func c04Configs(env *mc.Env) []*c04Cfg {
 				if !env.Thorough() && mode == extension.GangModeNonStrict && pol != extension.GangMatchPolicyOnceSatisfied {
 					continue
 				}
-				cfgs = append(cfgs, &c04Cfg{name: "crd|" + sh + "|" + mode + "|" + pol, mode: mode, policy: pol, gangs: shapes[sh], crd: true})
+				cfgs = append(cfgs, &c04Cfg{name: "crd|" + sh + "|" + mode + "|" + pol, mode: mode, policy: pol, gangs: shapes[sh], crd: true, flipAll: env.Thorough()})
 			}
 		}
 	}
